@@ -8,6 +8,7 @@ SLD multiplied by mu.
 from __future__ import annotations
 
 import math
+import os
 import re
 
 import numpy as np
@@ -26,7 +27,8 @@ ASSUMPTIONS = ["one case in four enters dimensionless size ratios below their de
                "rtol 1e-7 (conforming models agree to 1e-10..1e-15, offenders are off by 1e-2..0.9)"]
 REQUIRED_MONITORS = ["length_scaling_I", "length_scaling_Fq", "sld_scaling"]
 REQUIRED_BUCKETS = {"quick": ["pd:on", "pd:off", "mode>0", "dim:2d", "mesh>100:mode>0", "dist:lognormal", "dist:schulz", "dist:gaussian", "magnetic", "dist:rectangle", "dist:uniform",
-                              "reparameterised:typed", "reparameterised:untyped", "magnetic:vector-sld-elements"]}
+                              "reparameterised:typed", "reparameterised:untyped", "magnetic:vector-sld-elements", "product:P-owns-volfraction", "product:S-owns-volfraction",
+                              "python-shape-plugin-without-radius_effective"]}
 REQUIRED_BUCKETS["thorough"] = REQUIRED_BUCKETS["quick"]
 
 UNIT_EXP = {"Ang": 1, "Ang^2": 2, "Ang^3": 3, "1/Ang": -1, "1/Ang^2": -2, "1/Ang^3": -3, "Ang^-1": -1, "Ang^-2": -2}
@@ -60,6 +62,12 @@ def gen_cases(tier, seed):
     for m in models():
         for k in range(n):
             cases.append({"id": "%s/%03d" % (m, k), "model": m, "k": k, "seed": seed, "group": m})
+    for j in range(len(PRODUCTS)):
+        for k in range(2 if tier == "quick" else 20):
+            cases.append({"id": "product/%d-%d" % (j, k), "kind": "product", "j": j, "k": k, "seed": seed, "model": "product",
+                          "group": "pr%d" % j})
+    for k in range(4 if tier == "quick" else 40):
+        cases.append({"id": "pyshape/%02d" % k, "kind": "pyshape", "k": k, "seed": seed, "model": "pyshape", "group": "pys"})
     for j in range(len(REPARAMS)):
         for typed in (1, 0):
             for k in range(2 if tier == "quick" else 20):
@@ -81,6 +89,106 @@ REPARAMS = [
     ("vesicle", [["inner_volume", "Ang^3", 1.1e5, [0, np.inf], "volume", "volume of the solvent core"]],
      "radius = cbrt(inner_volume/M_4PI_3)"),
 ]
+
+
+PRODUCTS = ["vesicle@hardsphere", "multilayer_vesicle@squarewell", "sphere@hardsphere", "hollow_cylinder@stickyhardsphere",
+            "core_shell_sphere@squarewell", "vesicle@stickyhardsphere"]      # (hayter_msa carries absolute lengths: salt, charge)
+
+
+def run_product(case, rec):
+    """Shape models inside P@S (form factors with and without their own volume fraction): the same laws, the structure
+    factor's radius entered in Ang."""
+    from sasmodels import core as sascore, direct_model
+    expr = PRODUCTS[case["j"]]
+    rng = core.rng_for(case["seed"], PROP, "product", case["j"], case["k"])
+    i = sascore.load_model_info(expr)
+    model = sascore.build_model(i, dtype="double", platform="dll")
+    pars = {}
+    for p in i.parameters.call_parameters:
+        if p.type == "magnetic" or p.name in ("scale", "background") or p.type == "orientation" or p.is_control if hasattr(p, "is_control") else False:
+            continue
+        v = float(p.default)
+        if p.type == "sld":
+            v = float(rng.uniform(0.5, 6.0))
+        elif p.name == "volfraction":
+            v = float(rng.uniform(0.05, 0.3))
+        elif np.isfinite(v) and v != 0 and p.units in ("Ang", "Ang^2", "Ang^3"):
+            v = v*float(rng.uniform(0.7, 1.4))
+        pars[p.name] = v
+    mode = int(rng.integers(0, len(i.radius_effective_modes or []) + 1)) if "radius_effective_mode" in i.parameters else None
+    if mode is not None:
+        pars["radius_effective_mode"] = mode
+    pars["scale"], pars["background"] = float(rng.uniform(0.5, 2)), 0.0
+    lam, mu = float(rng.uniform(0.4, 2.5)), float(rng.uniform(0.3, 3.0))
+    size = max([abs(pars[p.name]) for p in i.parameters.call_parameters if p.units == "Ang" and p.name in pars] + [1.0])
+    q = [np.clip(np.exp(rng.uniform(math.log(0.2/size), math.log(6.0/size), 4)), 1e-7, 10.0)]
+    I0 = np.asarray(direct_model.call_kernel(model.make_kernel(q), dict(pars)), float)
+    p1 = scaled(i, pars, lam, 1.0)
+    I1 = np.asarray(direct_model.call_kernel(model.make_kernel([a/lam for a in q]), dict(p1)), float)
+    p2 = scaled(i, pars, 1.0, mu)
+    I2 = np.asarray(direct_model.call_kernel(model.make_kernel(q), dict(p2)), float)
+    sc = float(np.max(np.abs(I0)))
+    ctx = {"model": expr, "pars": pars, "lambda": lam, "mu": mu, "q": q}
+    ok = core.close(I1, lam**3*I0, 1e-7, 1e-9*lam**3*sc)
+    rec.check("length_scaling_I", ok, None if ok else dict(ctx, I=I0, I_scaled=I1, expected=lam**3*I0,
+                                                          max_rel_err=core.maxrel(I1, lam**3*I0, 1e-12*sc)))
+    ok2 = core.close(I2, mu**2*I0, 1e-7, 1e-9*mu**2*sc)
+    rec.check("sld_scaling", ok2, None if ok2 else dict(ctx, I=I0, I_scaled=I2))
+    rec.bucket("product:" + ("P-owns-volfraction" if "vesicle" in expr else "S-owns-volfraction"), "pd:off", "dim:1d")
+    rec.set_shape(("product", expr, case["k"]), True)
+
+
+PYSHAPE = """r\"\"\"python shape plugin (verification harness)\"\"\"
+import numpy as np
+from numpy import inf
+name = "%(name)s"
+title = "python shape"
+description = "python shape"
+category = "shape:cylinder"
+parameters = [["sld", "1e-6/Ang^2", 2.0, [-inf, inf], "sld", ""], ["sld_solvent", "1e-6/Ang^2", 6.0, [-inf, inf], "sld", ""],
+              ["radius", "Ang", 35.0, [0, inf], "volume", ""], ["length", "Ang", 80.0, [0, inf], "volume", ""]]
+def form_volume(radius, length):
+    return np.pi*radius**2*length
+def Iq(q, sld, sld_solvent, radius, length):
+    rg2 = radius**2/2.0 + length**2/12.0
+    return 1e-4*((sld - sld_solvent)*np.pi*radius**2*length)**2*np.exp(-q**2*rg2/3.0)
+Iq.vectorized = True
+"""
+
+
+def run_pyshape(case, rec):
+    """A pure-python shape plugin that defines its volume but no effective radius (the equivalent-sphere radius is then
+    supplied by the library): the same laws."""
+    from sasmodels import core as sascore, direct_model
+    rng = core.rng_for(case["seed"], PROP, "pyshape", case["k"])
+    d = os.path.join(os.environ.get("RTM_SCRATCH", "/tmp"), "c13plugins")
+    os.makedirs(d, exist_ok=True)
+    path = os.path.join(d, "rtm13_pyshape.py")
+    if not os.path.exists(path):
+        with open(path + ".tmp%d" % os.getpid(), "w") as f:
+            f.write(PYSHAPE % dict(name="rtm13_pyshape"))
+        os.replace(path + ".tmp%d" % os.getpid(), path)
+    model = sascore.load_model(path)
+    i = model.info
+    pars = {"sld": float(rng.uniform(0.5, 4)), "sld_solvent": float(rng.uniform(5, 7)), "radius": float(rng.uniform(10, 60)),
+            "length": float(rng.uniform(30, 200)), "scale": float(rng.uniform(0.5, 2)), "background": 0.0}
+    if case["k"] % 2:
+        pars.update(radius_pd=0.12, radius_pd_n=6, length_pd=0.1, length_pd_n=4)
+    lam, mu = float(rng.uniform(0.4, 2.9)), float(rng.uniform(0.3, 3.0))
+    q = [np.exp(rng.uniform(math.log(0.002), math.log(0.08), 4))]
+    kf = lambda qq: model.make_kernel(qq)
+    ctx = {"model": "python shape plugin with form_volume and without radius_effective", "pars": pars, "lambda": lam, "mu": mu, "q": q}
+    I0, Fa = evaluate(i, kf, pars, q, 1, "1d")
+    I1, Fb = evaluate(i, kf, scaled(i, pars, lam, 1.0), [a/lam for a in q], 1, "1d")
+    I2, _ = evaluate(i, kf, scaled(i, pars, 1.0, mu), q, 1, "1d")
+    sc = float(np.max(np.abs(I0)))
+    ok = core.close(I1, lam**3*I0, 1e-7, 1e-9*lam**3*sc)
+    rec.check("length_scaling_I", ok, None if ok else dict(ctx, I=I0, I_scaled=I1))
+    rec.check("sld_scaling", core.close(I2, mu**2*I0, 1e-7, 1e-9*mu**2*sc), dict(ctx, I=I0, I_scaled=I2))
+    okF = abs(Fb[3] - lam**3*Fa[3]) <= 1e-7*abs(lam**3*Fa[3]) and abs(Fb[2] - lam*Fa[2]) <= 1e-7*abs(lam*Fa[2]) and Fa[2] > 0
+    rec.check("length_scaling_Fq", bool(okF), None if okF else dict(ctx, R=[Fa[2], Fb[2]], V_shell=[Fa[3], Fb[3]]))
+    rec.bucket("python-shape-plugin-without-radius_effective", "pd:on" if case["k"] % 2 else "pd:off", "dim:1d")
+    rec.set_shape(("pyshape", case["k"]), True)
 
 
 def run_reparam(case, rec):
@@ -172,6 +280,10 @@ def evaluate(i, kernel_for, pars, q, mode, dim):
 def run_case(case, rec):
     if case.get("kind") == "reparam":
         return run_reparam(case, rec)
+    if case.get("kind") == "product":
+        return run_product(case, rec)
+    if case.get("kind") == "pyshape":
+        return run_pyshape(case, rec)
     name = case["model"]
     i = sas.info(name)
     k = case["k"]
